@@ -221,7 +221,7 @@ def coq_make(targets, timeout=1500, jobs=16):
             rc, out = sh(["coq_makefile", "-f", "_CoqProject", "-o", "Makefile"], cwd=COQ, timeout=120)
             if rc != 0:
                 return False, out
-        cmd = ["timeout", str(timeout), "make", "-j%d" % jobs] + list(targets)
+        cmd = ["timeout", str(timeout), "make", "-k", "-j%d" % jobs] + list(targets)
         rc, out = sh(cmd, cwd=COQ, timeout=timeout + 30)
         return rc == 0, out
 
@@ -351,7 +351,10 @@ class Ctx:
         if not ok:
             m = re.search(r'File "([^"]+)", line (\d+)', out)
             where = ("%s:%s" % (m.group(1), m.group(2))) if m else "?"
-            tail = "\n".join(out.strip().split("\n")[-40:])
+            ls = out.strip().split("\n")
+            first = next((i for i, l in enumerate(ls) if l.startswith('File "')), None)
+            err = ("\n".join(ls[first:first + 25]) + "\n...\n") if first is not None and first < len(ls) - 40 else ""
+            tail = err + "\n".join(ls[-40:])
             p = self.write_replay("coq-build", "Coq build failed at %s (targets %s)\n\n%s" % (where, " ".join(targets), tail))
             self.brokens.append(("proof obligation or bridge no longer checks: " + where, p))
         return ok
@@ -383,7 +386,9 @@ class Ctx:
             self.closed_count, self.axioms = parse_assumptions(log)
             self.discharged = self.obligations
         else:
-            self.discharged = 0
+            # the statements of the obligation files that did compile are discharged; those of the file that no
+            # longer checks (and of files make did not reach) are not
+            self.discharged = sum(1 for (_, _, rel) in stmts if os.path.exists(os.path.join(COQ, rel) + "o"))
         return ok
 
     def ocaml_model(self, name, extracted, driver_dir):
